@@ -13,7 +13,12 @@ Open Scope string_scope.
 Theorem C19_code_constants :
   GenSourceRef.li_guard_le = true /\ GenSourceRef.li_plus = 1%Z /\ GenSourceRef.li_range_minus = 1%Z
   /\ GenSourceRef.li_index_minus = 1%Z /\ GenSourceRef.li_split = "src.splitlines()"
-  /\ GenSourceRef.bf_hops = 2%Z /\ GenSourceRef.bf_walks = true.
+  /\ GenSourceRef.bf_hops = 2%Z /\ GenSourceRef.bf_walks = true
+  /\ GenSourceRef.bf_walk_pred = "_in_package(backend_frame.f_code.co_filename)"
+  /\ GenSourceRef.sr_private_helpers =
+       ["_PACKAGE_DIR = os.path.dirname(os.path.abspath(__file__))";
+        "def _in_package(filename: str) -> bool: ; DOC""""Returns True for the source files of the nada_dsl package itself."""""" ;     return os.path.abspath(filename).startswith(_PACKAGE_DIR + os.sep)"]
+  /\ GenSourceRef.li_pre = C19Proofs.expected_li_pre.
 Proof. repeat split; reflexivity. Qed.
 Print Assumptions C19_code_constants.
 
